@@ -1,6 +1,6 @@
 """C20 — active_injectors counts the live injectors of the current stream (accounting argument)."""
 from cfg import Inconclusive, op_place, show, walk, strip_casts, decision_paths, poly_of, Poly
-from common import (calls_to, callee, field_chain, fn_of, get_fn, peel, site, guards_of, field_assigns,
+from common import (enum_fn_table, calls_to, callee, field_chain, fn_of, get_fn, peel, site, guards_of, field_assigns,
                     ret_aggregates)
 
 PROP = "C20"
@@ -120,20 +120,7 @@ def rule_refs_table(ctx):
     fn = get_fn(facts, "nucleo", "State::matcher_item_refs")
     st = facts.adt("nucleo", "State")
     variants = {v["discr"]: v["name"] for v in st["variants"]}
-    sw = fn.blocks[0]["term"]
-    if sw["k"] != "switch" or fn.expr_of_operand(sw["discr"])[0] != "discr":
-        raise Inconclusive("matcher_item_refs is not a match on the state")
-    table = {}
-    for v, bb in sw["arms"]:
-        vals = []
-        for rb in fn.reach_from(bb):
-            for s in fn.blocks[rb]["stmts"]:
-                if s["k"] == "assign" and s["lhs"]["l"] == 0 and not s["lhs"]["p"]:
-                    c = fn.const_of_operand(s["rv"]["use"]) if "use" in s["rv"] else None
-                    vals.append(c)
-        if len(vals) != 1 or vals[0] is None:
-            raise Inconclusive("matcher_item_refs: arm %s is not a constant" % v)
-        table[variants.get(v, v)] = vals[0]
+    table = enum_fn_table(facts, fn, "nucleo", "State")
     # expected = 1 (Nucleo.items) + [Worker.items is the current stream], bracket justified by C20.transitions
     expected = {"Init": 2, "Cleared": 1, "Fresh": 2}
     for k, want in expected.items():
